@@ -390,7 +390,7 @@ func (w *world) runOp(op opSpec) {
 		if op.fault == "writer" && i == op.faultAt && !c.hasPayload() {
 			faultHere = false
 		}
-		run.Case(fmt.Sprintf("%s|%s|size=%d|resp2=%v|rbuf=%d|fault=%s@%v|k=%d|plain=%v|pos=%d/%d|broken=%v", key, c.kind, sizeClass(len(c.payload)), w.resp2, w.rbuf, op.fault, faultHere, kClass(op.k, w.encodedLen(c)), op.plainWriter, posClass(i, len(op.cmds)), lenClass(len(op.cmds)), broken), true)
+		run.Case(fmt.Sprintf("%s|%s|size=%d|resp2=%v|rbuf=%d|fault=%s@%v|k=%s|plain=%v|pos=%d/%d|broken=%v", key, c.kind, sizeClass(len(c.payload)), w.resp2, w.rbuf, op.fault, faultHere, kClass(op.k, w.encodedLen(c)), op.plainWriter, posClass(i, len(op.cmds)), lenClass(len(op.cmds)), broken), true)
 		if int64(len(r.got)) != r.n {
 			run.Violation("n-differs-from-bytes-written", key+"|"+c.kind, wit(i, nil))
 		}
